@@ -137,8 +137,9 @@ prop('C22', prefix=['c22'],
              'symbolic window under C16), sheet-qualified addresses through the parser, longer and non-ASCII sheet names')
 prop('C27', prefix=['c27', 'c29'],
      bounds='<=2 column descriptors / <=2 row records (in-grid, well-formed pre-state), one Model-level structural edit '
-            '(insert/delete any position and count; move block <=2, offset <=2) on a cell-free sheet',
-     outside='sheet names/ids, cells inside the grid, style/shared-string/formula indices, spill anchors, defined names; '
+            '(insert/delete any position and count; move block <=2, offset <=2) on a cell-free sheet; sheet names: three sheets (one named with non-ASCII letters), rename of any '
+            'of them to one of seven names incl. case variants of the existing names - names stay unique ignoring (Unicode) case, a clash is refused',
+     outside='sheet ids, sheet names under new/insert/duplicate/delete, cells inside the grid, style/shared-string/formula indices, spill anchors, defined names; '
              'the Worksheet setters are checked for the same invariant under C29 (check ids C27.*)')
 prop('C29', prefix=['c29'],
      bounds='<=2 column descriptors, <=2 row records; one setter call from an arbitrary well-formed state; '
@@ -169,8 +170,8 @@ prop('C33', prefix=['c33'],
 prop('C34', prefix=['c34'],
      bounds='reference/range token texts assembled from symbolic pieces: optional leading space, no / unquoted 2-letter / quoted sheet prefix, endpoints '
             '[$]letters{1,2}[$]digits{1,2} | [$]letters | [$]digits, single or a:b; arbitrary ASCII text of length <=4 (<=6 thorough) for "touches only $ and case"; '
-            'cycle_reference with the real tokenizer on =<ref or range with optional sheet prefix>+<ref>, symbolic $ markers, every cursor position / selection',
-     outside='formulas other than =<ref>+<ref> for the cursor rule, non-ASCII text, longer tokens')
+            'cycle_reference with the real tokenizer on =<ref or range with optional sheet prefix>+<ref>, symbolic $ markers, every cursor position / selection; ="é"&A1+1 and =\'Año\'!A1+B2 with the cursor anywhere in the first reference, four steps',
+     outside='formulas other than =<ref>+<ref> for the cursor rule, other non-ASCII text, longer tokens')
 
 
 def log(*a):
